@@ -297,7 +297,7 @@ func vc_C03_lipschitz_extrude() {
 // C03 also covers the 2-D union (pruned evaluation must not overestimate the
 // distance) and the polygon primitive (exact sign on split lines): the
 // harnesses of C16 and C04 are registered under this property as well.
-func vc_C03_union2d_no_overestimate() { vfUnionPrune(2+vfCase("n", 2), 0) }
+func vc_C03_union2d_no_overestimate() { vfUnionPrune(3+vfCase("n", 2), 0) }
 
 func vc_C03_polygon_sign_splitlines() {
 	k := len(vfPolys) + vfCase("poly", 4)
